@@ -11,9 +11,12 @@ pub mod rtrsrv;
 pub mod sched;
 pub mod server;
 pub mod validity;
+pub mod worlds;
 
 pub fn all() -> Vec<&'static Check> {
     vec![
+        &worlds::C01,
+        &worlds::C02,
         &delta::C11,
         &delta::C12,
         &history::C13,
